@@ -49,7 +49,31 @@ R_COUNT_TWICE = {        # commit 69b7a62: `a.bs.add([b1,b2]); a.bs.remove(b1)` 
             {'k': 'coll_remove', 'o': 0, 'key': [0, False], 'items': [1], 'via': 'single', 'rs': 5}]}
 WITNESSES = []
 
-REGRESSIONS = [('set-after-unflushed-remove', R_SET_AFTER_REMOVE), ('one-to-many-remove-count', R_COUNT_TWICE)]
+_E1 = {'pk': 'explicit', 'scalars': [{'name': 's0', 'req': False, 'unique': False}], 'ckey': False}
+R_SYMM_OWN_OWNER = {   # commit e8061ac: p.friends.add(p); p.friends.clear(); p.friends += [p]; commit inserted no link row (the session showed {p})
+    'schema': {'ents': [dict(_E1)], 'rels': [{'kind': 'symm', 'sym': True, 'a': {'ent': 0, 'coll': True, 'req': False, 'opt_casc': None}}]},
+    'ops': [{'k': 'create', 'oid': 0, 'e': 0, 'pk': 1, 'scalars': {}, 'refs': {}, 'colls': {}, 'rs': 1},
+            {'k': 'commit', 'rs': 2},
+            {'k': 'coll_add', 'o': 0, 'key': [0, False], 'items': [0], 'via': 'single', 'rs': 3},
+            {'k': 'coll_clear', 'o': 0, 'key': [0, False], 'rs': 4},
+            {'k': 'coll_add', 'o': 0, 'key': [0, False], 'items': [0], 'via': 'op', 'rs': 5},
+            {'k': 'commit', 'rs': 6},
+            {'k': 'coll_remove', 'o': 0, 'key': [0, False], 'items': [0], 'via': 'single', 'rs': 7},       # the loud sibling: INSERT of the existing row
+            {'k': 'coll_set', 'o': 0, 'key': [0, False], 'items': [0], 'via': 'list', 'rs': 8},
+            {'k': 'commit', 'rs': 9}]}
+R_O2M_ASSIGN_TWICE = {   # b = B(); a.bs.add(b); a.bs.clear(); b.a = a; list(a.bs) raised AssertionError (never-saved item recorded as removed by Set.__set__)
+    'schema': {'ents': [dict(_E1), dict(_E1)],
+               'rels': [{'kind': 'm2o', 'sym': False, 'a': {'ent': 1, 'coll': False, 'req': False, 'opt_casc': None},
+                         'b': {'ent': 0, 'coll': True, 'req': False, 'opt_casc': None}}]},
+    'ops': [{'k': 'create', 'oid': 0, 'e': 0, 'pk': 1, 'scalars': {}, 'refs': {}, 'colls': {}, 'rs': 1},
+            {'k': 'commit', 'rs': 2},
+            {'k': 'create', 'oid': 1, 'e': 1, 'pk': 9, 'scalars': {}, 'refs': {}, 'colls': {}, 'noreads': True, 'rs': 3},
+            {'k': 'coll_add', 'o': 0, 'key': [0, True], 'items': [1], 'via': 'single', 'noreads': True, 'rs': 4},
+            {'k': 'coll_clear', 'o': 0, 'key': [0, True], 'noreads': True, 'rs': 5},
+            {'k': 'set_ref', 'o': 1, 'key': [0, False], 'v': 0, 'rs': 6}]}
+REGRESSIONS = [('set-after-unflushed-remove', R_SET_AFTER_REMOVE), ('one-to-many-remove-count', R_COUNT_TWICE),
+               ('symmetric-collection-own-owner (commit e8061ac)', R_SYMM_OWN_OWNER)]
+REGRESSIONS_PENDING = [('one-to-many-assignment-recorded-twice (fixes/C10-one-to-many-assignment-double-bookkeeping.diff)', R_O2M_ASSIGN_TWICE)]
 
 # ---------------------------------------------------------------- part B: one watched collection
 
